@@ -51,6 +51,11 @@ pub fn on_fresh_thread<T: Send + 'static>(
             if crate::shim::loaded() {
                 crate::shim::reseed(seed);
             }
+            // Thread pools inside dependencies are a source of nondeterminism the simulator does not schedule: the
+            // code under test uses rayon (start-up scan of the record store, NetworkDiscovery). The run's thread
+            // becomes the only worker of a private one-thread pool, so every par_iter issued from this thread runs
+            // inline, in iteration order. (rayon leaks the registry of such a pool: ~1 KiB per run.)
+            let _pool = rayon_core::ThreadPoolBuilder::new().num_threads(1).use_current_thread().build();
             let r = std::panic::catch_unwind(std::panic::AssertUnwindSafe(f));
             match r {
                 Ok(v) => ThreadOutcome::Done(v),
